@@ -68,8 +68,10 @@ def generate(rng, tier):
             # the frame's start time is re-assigned, by the library's own Cadence(t_overwrite=True) or by the user
             ops.append({"op": "retime", "fr": fr, "via": rng.choice(["cadence", "assign"]), "slew": rng.choice([0.0, 150.0, 3600.0])})
         else:
-            ops.append({"op": "save", "fr": fr, "fmt": rng.choice(["fil", "fil", "h5", "h5b"])})
-    ops.append({"op": "save", "fr": rng.randrange(0, 8), "fmt": rng.choice(["fil", "fil", "h5"])})
+            ops.append({"op": "save", "fr": fr, "fmt": rng.choice(["fil", "fil", "h5", "h5b"]),
+                        "load_form": rng.choice(["str", "str", "path", "object", "from_waterfall"])})
+    ops.append({"op": "save", "fr": rng.randrange(0, 8), "fmt": rng.choice(["fil", "fil", "h5"]),
+                "load_form": rng.choice(["str", "str", "path", "object", "from_waterfall"])})
     # sibling frames alive in the same session (own geometry, own source name): their operations interleave
     siblings = []
     for k in range(rng.choice([0, 0, 1, 1, 2])):
@@ -119,13 +121,23 @@ def _close(a, b, ulps):
     return abs(a - b) <= ulps * math.ulp(max(abs(a), abs(b), 1e-300))
 
 
-def judge_roundtrip(ctx, saved, path, fmt, hist):
+def judge_roundtrip(ctx, saved, path, fmt, hist, load_form="str"):
     """All C03 oracles for one saved file."""
+    import pathlib
     import setigen as stg
     from blimpy import Waterfall
     cls = "%s/%s/%s" % (fmt.replace("h5b", "h5"), "ascending" if saved.ascending else "descending", hist)
     try:
-        loaded = stg.Frame(waterfall=path)
+        # every documented way of constructing a frame from a file
+        if load_form == "path":
+            loaded = stg.Frame(waterfall=pathlib.Path(path))
+        elif load_form == "object":
+            loaded = stg.Frame(waterfall=Waterfall(path))
+        elif load_form == "from_waterfall":
+            loaded = stg.Frame.from_waterfall(path)
+        else:
+            loaded = stg.Frame(waterfall=path)
+        ctx.hit("load_form_" + load_form)
     except (Exception, SystemExit) as e:
         ctx.violation("load", "C03/load/raises:%s/%s" % (type(e).__name__, cls), repr(e))
         return None
@@ -311,7 +323,7 @@ def execute(sc, ctx):
                         ctx.hit(probe)
                 if "loaded" in h:
                     ctx.hit("loaded_resaved")
-                loaded = judge_roundtrip(ctx, fr, path, fmt, hcls)
+                loaded = judge_roundtrip(ctx, fr, path, fmt, hcls, op.get("load_form", "str"))
                 nsave += 1
                 saved_classes.add((fmt.replace("h5b", "h5"), bool(fr.ascending), hcls))
                 if h:
